@@ -503,7 +503,11 @@ def tallyPasses (com : Committee LP) (votes : List Vote) (ext : LExt) (pid : Nat
     decide ((com.quorum.mul (Dec.ofInt ext.supply)).m ≤ total * P) && decide (0 < yes + no) &&
       decide (((Dec.ofInt (yes + no)).mul com.threshold).m ≤ yes * P)
   else
-    decide ((com.threshold.mul (Dec.ofInt com.members.length)).m ≤ (vs.length : Int) * P)
+    -- member committees: "a passing tally of votes" of the committee's CURRENT members (a stored vote of
+    -- somebody who is not a member now must not count; on the code as it stands a membership change closes
+    -- every pending proposal, so no such vote can exist at a tally)
+    let vm := vs.filter (fun v => com.members.contains v.voter)
+    decide ((com.threshold.mul (Dec.ofInt com.members.length)).m ≤ (vm.length : Int) * P)
 
 /-- a token-committee tally in which no yes and no no weight was counted (everybody abstained / nobody voted) -/
 def emptyTally (com : Committee LP) (votes : List Vote) (ext : LExt) (pid : Nat) : Bool :=
